@@ -58,7 +58,7 @@ class ModelSaver(CallbackBase):
         metadata_only=False,
     ):
         self.folder_path = folder_path
-        self.period = period
+        self.period = int(period)
         self.file_name = file_name
         self.save_initial = save_initial
         self.metadata = metadata
